@@ -123,6 +123,17 @@
      state: every read of total_outbufs_len returns a value chosen by the environment, select
      may report anything that was asked for, a flush fails whenever the environment says so.
      This only ADDS behaviours (every real run is a run of the model).
+   * socket errors: the model's flush outcomes are classes of errno.  FOk: bytes sent, EWOULDBLOCK,
+     and -- on a worker (do_close=False) -- the six "silent disconnect" errnos of
+     wasyncore._DISCONNECTED (ECONNRESET ENOTCONN ESHUTDOWN ECONNABORTED EPIPE EBADF), which
+     dispatcher.send swallows: no decision.  FDisc: one of those six on the I/O thread
+     (do_close=True): handle_close.  FErr / WFlushErr: EVERY other errno: _flush_exception sets
+     will_close on the flushing thread.  recv: REof = one of the six (handle_close, b"", then
+     connected := False), RErr = every other errno incl. EWOULDBLOCK (handle_close).  Which errno
+     falls in which class is NOT a choice of the environment: the conformance K-errno
+     (harness/chanclose.py errno_conformance) checks on every injected errno, drawn from all of
+     errno.errorcode, that the real code takes exactly the decision of its class, and the set of
+     six is audited against the source.
    * the request parser: the data of one recv is the list of its completed non-empty requests
      (each valid or an error request -- garbage is an error request) and of its
      100-continue heads; partial data is the empty list.  Parsing itself is C01/C02.
